@@ -71,6 +71,19 @@ func (w *World) orderSites(extraTainted map[string]bool) []orderSite {
 		}
 		mapTypeOf := func(e ast.Expr) string {
 			if t := info.TypeOf(e); t != nil {
+				// the parameter of a generic new helper: the type the callers instantiate it with
+				if id, ok := ast.Unparen(e).(*ast.Ident); ok && mentionsTypeParam(t) {
+					w.buildASTNewIndex()
+					if np, ok := w.newParams[info.Uses[id]]; ok && np.Idx >= 0 {
+						for _, site := range w.astSites[np.Key] {
+							if a := argOfSite(site, np.Idx); a != nil {
+								if at := site.Fi.Pkg.TypesInfo.TypeOf(a); at != nil && !mentionsTypeParam(at) {
+									return short(types.TypeString(at, nil))
+								}
+							}
+						}
+					}
+				}
 				return short(types.TypeString(t, nil))
 			}
 			return exprString(e)
@@ -429,5 +442,36 @@ func (w *World) printsPos(key string, depth int) bool {
 		return !found
 	})
 	w.printsPosMemo[key] = found
+	return found
+}
+
+func mentionsTypeParam(t types.Type) bool {
+	found := false
+	var walk func(t types.Type, d int)
+	walk = func(t types.Type, d int) {
+		if t == nil || found || d > 6 {
+			return
+		}
+		switch x := t.(type) {
+		case *types.TypeParam:
+			found = true
+		case *types.Map:
+			walk(x.Key(), d+1)
+			walk(x.Elem(), d+1)
+		case *types.Slice:
+			walk(x.Elem(), d+1)
+		case *types.Array:
+			walk(x.Elem(), d+1)
+		case *types.Pointer:
+			walk(x.Elem(), d+1)
+		case *types.Named:
+			if ta := x.TypeArgs(); ta != nil {
+				for i := 0; i < ta.Len(); i++ {
+					walk(ta.At(i), d+1)
+				}
+			}
+		}
+	}
+	walk(t, 0)
 	return found
 }
